@@ -80,13 +80,14 @@ CHECKS = {
     'C12': dict(
         gens=['Consts'],
         props='ZanVerif.Props.C12',
-        protos=[dict(name='codec', quick_seeds=1, thorough_seeds=4)],
+        protos=[dict(name='codec', quick_seeds=1, thorough_seeds=4),
+                dict(name='isol', mode='oracle', quick_seeds=2, thorough_seeds=3)],
         rule="random tuples over an adversarial byte alphabet (0x00 0xff ':' ';' length bytes), names drawn from a pool and varied by one byte / one-byte extension / truncation so that prefix relations and near-collisions are probed; "
              "every encoder and decoder of the key codec is called; decoders also on truncated / bit-flipped / extended encodings; non-trivial = the real code returned a value (not err); distinct = distinct op lines",
         trusted=["bytes.Compare = lexicographic order on List UInt8 (Lean core's List order)",
                  "float scores: the transform is modelled on IEEE bit patterns; order preservation for floats is checked by the Go oracle only (not yet a theorem)"],
         partial=["C12_float_order (order preservation of the float score transform) and zscore-key injectivity are not yet theorems; NaN scores collide with small positive scores (ZADD accepts 'nan': recorded as a candidate finding for C08)",
-                 "operation-level frame property (an operation on A leaves reads of B unchanged) is carried by the data-mapping model (C08/C09), not here"],
+                 "operation-level frame property (an operation on A leaves reads of B unchanged): proved for the hash/set/list/kv storage models (C08/C09 modules); for the real range operations (whole-table delete, clears) it is judged by the `isol` oracle on a real store over prefix-related table names"],
         assumptions=["table and key lengths below 65536 (the server enforces 255 / 10240: theorem limits_fit over regenerated constants)", "list sequence numbers and versions are int64"],
         level_text="Theorems over a byte-for-byte Lean model of the rockredis key codec (constants regenerated from the source): joint injectivity of all user-data key encoders (KV, size/meta, hash/set/zset sub-keys, list element keys) for ALL byte strings; range exactness of collection ranges, table ranges and KV table ranges ([start,stop) contains exactly the addressed sub-keys, and no key of another tuple); memcomparable bytes: order preservation + self-delimiting; int: order preservation + injectivity; versioned keys (key,version) injective and ordered as tuples; versioned sub-keys injective. The model is tied to the real encoders AND decoders (incl. their error and panic outcomes on damaged input) byte for byte on 30k (quick) / 6M (thorough) calls per run.",
         level_note="Go's bytes.Compare is taken to be Lean's lexicographic List order; float-score order is oracle-only; engine iteration honouring the ranges is C20's subject.",
